@@ -496,6 +496,53 @@ func Monitors(c *Case) []vh.Violation {
 			}
 		}
 	}
+	// ---------------- C06: no notice before the target has begun to terminate
+	// A notice naming w is sent when w completes its termination (after its own OnTerminated), by the dead-letter process
+	// when nobody holds w's address, or at once to a late watcher when w is already terminating (it has handled
+	// OnTerminate). A launched actor that has handled neither OnTerminate nor its own OnTerminated so far — it is alive,
+	// or restarting and waiting for its children — must not be named by a notice anybody handles.
+	{
+		launchedAt, beganAt := map[int]int{}, map[int]int{}
+		for i, o := range fl {
+			if o.K != "H" {
+				continue
+			}
+			switch o.Trig {
+			case "L":
+				if _, ok := launchedAt[o.A]; !ok {
+					launchedAt[o.A] = i
+				}
+			case "T", "TS":
+				if _, ok := beganAt[o.A]; !ok {
+					beganAt[o.A] = i
+				}
+			case "TO":
+				l, wasLaunched := launchedAt[o.Who]
+				_, began := beganAt[o.Who]
+				// a watch request issued before the target was spawned is answered at once by the dead-letter process: that
+				// notice may be handled after the launch
+				early := false
+				for j, w := range fl[:i] {
+					if w.K == "W" && w.A == o.A && w.Who == o.Who {
+						sp := -1
+						for k2, x := range fl {
+							if x.K == "SP" && x.Who == o.Who {
+								sp = k2
+								break
+							}
+						}
+						if sp < 0 || j < sp {
+							early = true
+						}
+					}
+				}
+				if wasLaunched && l < i && !began && spawns[o.Who] <= 1 && !early {
+					add("C06:notified-before-termination", fmt.Sprintf("actor %d handled OnTerminated(%d) at step %d although %d (launched, never re-created) had handled neither OnTerminate nor its own OnTerminated yet",
+						o.A, o.Who, o.Step, o.Who), nil)
+				}
+			}
+		}
+	}
 	// ---------------- C06: exactly once
 	// For a target address that was spawned at most once (no address reuse), an observer may handle OnTerminated(target)
 	// at most: one for being its parent or having watched it while it was registered and not yet terminating, plus one
